@@ -4,10 +4,12 @@
    multiplications / additions on bit positions in the decoder) panic on overflow (Panic 13/14, as in an
    overflow-checked build); the BitWindow field updates of `forwards` (forwards_chk, Panic 15/17/19), `byte + 1`
    in check_eof (Panic 16) and the `7 * byte` of the encoder's reserve (Panic 18) panic at the field widths
-   read from bitwin.rs (Gen/GenBitwin.v).  Other panic sites:
+   read from bitwin.rs (Gen/GenBitwin.v).  Every shift is a panic site when its amount reaches the width of
+   the shifted type (debug-build semantics): check_padding (40), check_eof (41/42), read_bits (43/44), write_bits
+   (45/46).  Other panic sites:
    slice index out of bounds and the debug_assert!s of write_bits (the harness is built with debug
    assertions). *)
-From H3V Require Import Base.Bytes Gen.GenHuffDec Gen.GenHuffEnc Gen.GenBitwin.
+From H3V Require Import Base.Bytes Gen.GenHuffDec Gen.GenHuffEnc Gen.GenBitwin Gen.GenHuffIter.
 
 (* ---------------------------------------------------------------- bitwin.rs *)
 Record bitwin := { bw_byte : N; bw_bit : N; bw_count : N }.
@@ -48,13 +50,16 @@ Definition read_bits (src : bytes) (byte_offset bit_offset len_ : N) : res unit 
     if bit_offset + len_ <=? 8 then
       match nth_n src byte_offset with
       | None => Panic 10
-      | Some b => Ok (N.shiftr (N.shiftl b bit_offset mod 256) (8 - len_))
+      | Some b =>
+          if (8 <=? bit_offset) || (8 <=? 8 - len_) then Panic 43      (* u8 shift by >= 8 *)
+          else Ok (N.shiftr (N.shiftl b bit_offset mod 256) (8 - len_))
       end
     else
       match nth_n src byte_offset, nth_n src (byte_offset + 1) with
       | Some b0, Some b1 =>
           let result := N.lor (N.shiftl b0 8) b1 in
-          Ok (N.shiftr (N.shiftl result bit_offset mod 65536) (16 - len_) mod 256)
+          if (16 <=? bit_offset) || (16 <=? 16 - len_) then Panic 44   (* u16 shift by >= 16 *)
+          else Ok (N.shiftr (N.shiftl result bit_offset mod 65536) (16 - len_) mod 256)
       | _, _ => Panic 11
       end.
 
@@ -77,10 +82,14 @@ Definition check_eof (w : bitwin) (input : bytes) : res huff_err (option N) :=
       | Err _ => Err MissingBits
       | Panic s => Panic s
       | Ok rest =>
-          if bw_count side =? 0 then Panic 12                     (* 2u16 << (count - 1) underflow *)
+          if bw_count side <? hi_eof_sub1 then Panic 12           (* side.count - 1 underflows *)
+          else if 16 <=? bw_count side - hi_eof_sub1 then Panic 41 (* 2u16 << n, n >= 16 *)
           else
-            let eof_filler := (N.shiftl 2 (bw_count side - 1) mod 65536 - 1) mod 256 in
-            if N.land rest eof_filler =? eof_filler then Ok None else Err MissingBits
+            let shifted := N.shiftl hi_eof_base (bw_count side - hi_eof_sub1) mod 65536 in
+            if shifted <? hi_eof_sub2 then Panic 42                (* ... - 1 underflows u16 *)
+            else
+              let eof_filler := (shifted - hi_eof_sub2) mod 256 in
+              if N.land rest eof_filler =? eof_filler then Ok None else Err MissingBits
       end
   | Lt => Err MissingBits
   end.
@@ -117,19 +126,23 @@ with pick (t : dlist) (i : nat) (w : bitwin) (input : bytes) {struct t}
   | DSub d' t' => match i with O => decode_next d' w input | S i' => pick t' i' w input end
   end.
 
-(* DecodeIter::check_padding: every bit from symbol_end to the end of the input is one *)
+(* DecodeIter::check_padding: every bit from symbol_end to the end of the input is one.
+   `0xFF >> (symbol_end % 8)` is a u8 shift: an amount >= 8 panics (Panic 40). *)
 Fixpoint all_bytes_ff (bs : bytes) : bool :=
   match bs with
   | [] => true
-  | b :: r => (N.land b 255 =? 255) && all_bytes_ff r
+  | b :: r => (N.land b hi_cp_filler_rest =? hi_cp_filler_rest) && all_bytes_ff r
   end.
 
-Definition check_padding (symbol_end : N) (input : bytes) : bool :=
-  match skipn (N.to_nat (symbol_end / 8)) input with
-  | [] => true
+Definition check_padding (symbol_end : N) (input : bytes) : res unit bool :=
+  match skipn (N.to_nat (symbol_end / hi_cp_div)) input with
+  | [] => Ok true
   | b :: r =>
-      let filler := N.shiftr 255 (symbol_end mod 8) in
-      (N.land b filler =? filler) && all_bytes_ff r
+      let sh := symbol_end mod hi_cp_mod in
+      if 8 <=? sh then Panic 40
+      else
+        let filler := N.shiftr hi_cp_filler_first sh in
+        Ok ((N.land b filler =? filler) && all_bytes_ff r)
   end.
 
 (* DecodeIter collected into Result<Vec<u8>, Error>.  Every symbol consumes at least one bit,
@@ -140,14 +153,20 @@ Fixpoint decode_iter (fuel : nat) (w : bitwin) (symbol_end : N) (input : bytes) 
   | S f =>
       match decode_next huff_dec_root w input with
       | Ok (Some (x, w')) =>
-          match decode_iter f w' (bw_byte w' * 8 + bw_bit w' + bw_count w') input with
+          match decode_iter f w' (bw_byte w' * hi_se_mul + bw_bit w' + bw_count w') input with
           | Ok out => Ok (x :: out)
           | Err e => Err e
           | Panic s => Panic s
           end
       | Err e => Err e
       | Panic s => Panic s
-      | Ok None => if check_padding symbol_end input then Ok [] else Err MissingBits
+      | Ok None =>
+          match check_padding symbol_end input with
+          | Ok true => Ok []
+          | Ok false => Err MissingBits
+          | Err _ => Err MissingBits
+          | Panic s => Panic s
+          end
       end
   end.
 
@@ -197,6 +216,7 @@ Definition write_bits (out : bytes) (pos : bitwin) (value : N) : res unit bytes 
         else if bit + count <=? 8 then
           match nth_n pad_right (8 - bit), nth_n pad_right (8 - count - bit) with
           | Some pr1, Some pr2 =>
+              if 8 <=? 8 - bit - count then Panic 45 else               (* u8 << n, n >= 8 *)
               let pad_l := N.lor ob pr1 in
               let shifted := N.lor (N.shiftl value (8 - bit - count) mod 256) pl in
               match upd out (N.to_nat (bw_byte pos)) (N.lor (N.land pad_l shifted) pr2) with
@@ -210,6 +230,7 @@ Definition write_bits (out : bytes) (pos : bitwin) (value : N) : res unit bytes 
           let rem := 8 - (count - split) in
           match nth_n pad_right split, nth_n pad_right rem with
           | Some pr1, Some pr2 =>
+              if (8 <=? count - split) || (8 <=? rem) then Panic 46 else    (* u8 >> / << n, n >= 8 *)
               let pad_l := N.lor ob pr1 in
               let shifted := N.lor (N.shiftr value (count - split)) pl in
               match upd out (N.to_nat (bw_byte pos)) (N.land pad_l shifted) with
